@@ -1,14 +1,25 @@
 // c17: introspection generator / converter / engine introspection on generated schemas.
+//
+// One case per output line:
+//   (c17 mode (schema S) parse-check (merged M|err) (gen (json J)|(panic)|(err)) (conv (schema C)|(error)|(panic)|(skipped)) (engine ok|(mismatch "…")|(skipped "…")) (features "f"…))
+// S is the generator-side tree (for corpus cases: the dump of the parsed document); parse-check is
+// `(parse ok)` when the dump of Go's parse of the emitted SDL equals S, the document carries no
+// extension and its root nodes come in the order schema / directives / types.
+// JSON object member order is Go's struct order (encoding/json), preserved by a token-level reader.
 package main
 
 import (
+	"bufio"
 	"bytes"
 	"encoding/json"
 	"fmt"
+	"io"
 	"os"
+	"sort"
+	"strings"
 
 	"gvh/common"
-	"gvh/schemadump"
+	sd "gvh/schemadump"
 
 	"github.com/wundergraph/graphql-go-tools/v2/pkg/ast"
 	"github.com/wundergraph/graphql-go-tools/v2/pkg/astparser"
@@ -27,18 +38,112 @@ func guard(f func()) (panicked string) {
 	return ""
 }
 
-// pipeline results for one SDL text
+// JSON text -> S-expression, member order preserved, numbers raw
+func jsonSexp(js []byte) (string, error) {
+	dec := json.NewDecoder(bytes.NewReader(js))
+	dec.UseNumber()
+	var rec func() (string, error)
+	rec = func() (string, error) {
+		t, err := dec.Token()
+		if err != nil {
+			return "", err
+		}
+		switch v := t.(type) {
+		case json.Delim:
+			switch v {
+			case '{':
+				items := []string{"o"}
+				for dec.More() {
+					k, err := dec.Token()
+					if err != nil {
+						return "", err
+					}
+					val, err := rec()
+					if err != nil {
+						return "", err
+					}
+					if k.(string) == "description" && strings.HasPrefix(val, "(s ") {
+						val = `(s "")` // descriptions are out of scope of the model
+					}
+					items = append(items, common.L(common.QS(k.(string)), val))
+				}
+				if _, err := dec.Token(); err != nil {
+					return "", err
+				}
+				return common.L(items...), nil
+			case '[':
+				items := []string{"a"}
+				for dec.More() {
+					val, err := rec()
+					if err != nil {
+						return "", err
+					}
+					items = append(items, val)
+				}
+				if _, err := dec.Token(); err != nil {
+					return "", err
+				}
+				return common.L(items...), nil
+			}
+			return "", fmt.Errorf("unexpected delimiter %v", v)
+		case string:
+			return common.L("s", common.QS(v)), nil
+		case json.Number:
+			return common.L("num", common.QS(v.String())), nil
+		case bool:
+			if v {
+				return "(t)", nil
+			}
+			return "(f)", nil
+		case nil:
+			return "(n)", nil
+		}
+		return "", fmt.Errorf("unexpected token %v", t)
+	}
+	s, err := rec()
+	if err != nil {
+		return "", err
+	}
+	if _, err := dec.Token(); err != io.EOF {
+		return "", fmt.Errorf("trailing data")
+	}
+	return s, nil
+}
+
 type result struct {
 	parseErr  string
-	parsed    *schemadump.Schema
+	parsed    *sd.Schema
 	exts      int
+	orderOK   bool
 	mergeErr  string
-	merged    *schemadump.Schema
-	genErr    string // "panic: ..." or report text
+	merged    *sd.Schema
+	genErr    string // "panic" | "err"
+	genMsg    string
 	json      []byte
-	convErr   string
-	converted *schemadump.Schema
-	doc       *ast.Document
+	data      *introspection.Data
+	convErr   string // "error" | "panic"
+	convMsg   string
+	converted *sd.Schema
+}
+
+func rootOrderOK(doc *ast.Document) bool {
+	stage := 0
+	for i, n := range doc.RootNodes {
+		switch n.Kind {
+		case ast.NodeKindSchemaDefinition:
+			if i != 0 {
+				return false
+			}
+		case ast.NodeKindDirectiveDefinition:
+			if stage > 1 {
+				return false
+			}
+			stage = 1
+		default:
+			stage = 2
+		}
+	}
+	return len(doc.RootNodes) > 0 && doc.RootNodes[0].Kind == ast.NodeKindSchemaDefinition
 }
 
 func pipeline(sdl string) *result {
@@ -48,7 +153,8 @@ func pipeline(sdl string) *result {
 		r.parseErr = report.Error()
 		return r
 	}
-	r.parsed, r.exts = schemadump.FromDocument(&doc)
+	r.parsed, r.exts = sd.FromDocument(&doc)
+	r.orderOK = rootOrderOK(&doc)
 	if p := guard(func() {
 		if err := asttransform.MergeDefinitionWithBaseSchema(&doc); err != nil {
 			r.mergeErr = err.Error()
@@ -59,45 +165,101 @@ func pipeline(sdl string) *result {
 	if r.mergeErr != "" {
 		return r
 	}
-	r.doc = &doc
-	r.merged, _ = schemadump.FromDocument(&doc)
+	r.merged, _ = sd.FromDocument(&doc)
 	var data introspection.Data
 	if p := guard(func() {
 		gen := introspection.NewGenerator()
 		rep := operationreport.Report{}
 		gen.Generate(&doc, &rep, &data)
 		if rep.HasErrors() {
-			r.genErr = rep.Error()
+			r.genErr, r.genMsg = "err", rep.Error()
 		}
 	}); p != "" {
-		r.genErr = "panic: " + p
+		r.genErr, r.genMsg = "panic", p
 	}
 	if r.genErr != "" {
 		return r
 	}
 	js, err := json.Marshal(data)
 	if err != nil {
-		r.genErr = "marshal: " + err.Error()
+		r.genErr, r.genMsg = "err", "marshal: "+err.Error()
 		return r
 	}
 	r.json = js
+	r.data = &data
 	if p := guard(func() {
 		conv := introspection.JsonConverter{}
 		out, err := conv.GraphQLDocument(bytes.NewReader(js))
 		if err != nil {
-			r.convErr = "error: " + err.Error()
+			r.convErr, r.convMsg = "error", err.Error()
 			return
 		}
-		r.converted, _ = schemadump.FromDocument(out)
+		r.converted, _ = sd.FromDocument(out)
 	}); p != "" {
-		r.convErr = "panic: " + p
+		r.convErr, r.convMsg = "panic", p
 	}
 	return r
 }
 
+// one case line; s == nil means "take S from the parse" (corpus)
+func observe(mode string, s *sd.Schema, sdl string, feats map[string]int, withEngine bool, r *common.Rand) string {
+	res := pipeline(sdl)
+	if res.parseErr != "" {
+		return common.L("c17", mode, "(parse-error)", common.QS(res.parseErr), common.QS(sdl))
+	}
+	parseCheck := "(parse ok)"
+	if s == nil {
+		s = res.parsed
+	} else if s.Sexp() != res.parsed.Sexp() {
+		parseCheck = common.L("parse", "tree-differs", res.parsed.Sexp())
+	}
+	if res.exts > 0 {
+		parseCheck = common.L("parse", "extensions")
+	} else if !res.orderOK {
+		parseCheck = common.L("parse", "root-order")
+	}
+	merged, gen, conv, eng := "", "", "(conv (skipped))", common.L("engine", common.L("skipped", common.QS("off")))
+	if res.mergeErr != "" {
+		merged = common.L("merged", common.L("err", common.QS(res.mergeErr)))
+		gen = "(gen (skipped))"
+	} else {
+		merged = common.L("merged", res.merged.Sexp())
+		switch res.genErr {
+		case "":
+			js, err := jsonSexp(res.json)
+			if err != nil {
+				gen = common.L("gen", common.L("err", common.QS("json: "+err.Error())))
+			} else {
+				gen = common.L("gen", common.L("json", js))
+			}
+			switch res.convErr {
+			case "":
+				conv = common.L("conv", res.converted.Sexp())
+			default:
+				conv = common.L("conv", common.L(res.convErr, common.QS(res.convMsg)))
+			}
+			if withEngine {
+				eng = common.L("engine", engineCheck(sdl, res, r))
+			}
+		default:
+			gen = common.L("gen", common.L(res.genErr, common.QS(res.genMsg)))
+		}
+	}
+	fs := []string{"features"}
+	var keys []string
+	for k := range feats {
+		keys = append(keys, k)
+	}
+	sort.Strings(keys)
+	for _, k := range keys {
+		fs = append(fs, common.QS(k))
+	}
+	return common.L("c17", mode, s.Sexp(), parseCheck, merged, gen, conv, eng, common.L(fs...))
+}
+
 func main() {
 	if len(os.Args) < 2 {
-		fmt.Fprintln(os.Stderr, "usage: c17 gen -seed S -n N -out F | c17 corpus -in F -out F | c17 probe FILE")
+		fmt.Fprintln(os.Stderr, "usage: c17 gen -seed S -n N -out F [-engine every]| c17 corpus -in F -out F | c17 probe FILE")
 		os.Exit(2)
 	}
 	switch os.Args[1] {
@@ -107,7 +269,7 @@ func main() {
 			panic(err)
 		}
 		r := pipeline(string(b))
-		fmt.Println("parseErr:", r.parseErr, "mergeErr:", r.mergeErr, "genErr:", r.genErr, "convErr:", r.convErr, "exts:", r.exts)
+		fmt.Println("parseErr:", r.parseErr, "mergeErr:", r.mergeErr, "genErr:", r.genErr, r.genMsg, "convErr:", r.convErr, r.convMsg, "exts:", r.exts)
 		if r.parsed != nil {
 			fmt.Println("PARSED:", r.parsed.Sexp())
 		}
@@ -117,9 +279,67 @@ func main() {
 			fmt.Println("JSON:", buf.String())
 		}
 		if r.converted != nil {
-			fmt.Println("CONVERTED SDL:\n" + r.converted.SDL(&schemadump.SDLOpts{SchemaBlock: true}))
+			fmt.Println("CONVERTED SDL:\n" + r.converted.SDL(&sd.SDLOpts{SchemaBlock: true}))
+		}
+		if len(os.Args) > 3 {
+			fmt.Println("ENGINE:", engineCheck(string(b), r, common.NewRand(1)))
 		}
 		return
 	}
-	_ = common.Args
+	a := common.Args(os.Args[2:])
+	out := common.NewOut(a["out"])
+	defer out.Close()
+	switch os.Args[1] {
+	case "gen":
+		r := common.NewRand(common.ArgU64(a, "seed", 1))
+		n := common.ArgInt(a, "n", 500)
+		every := common.ArgInt(a, "engine", 0)
+		// the empty document ties the base schema itself
+		out.Line(observe("base", nil, "schema { query: Query }\n", nil, false, r))
+		for i := 0; i < n; i++ {
+			mode := "clean"
+			k := r.Pick(20)
+			switch {
+			case k < 9:
+			case k < 18:
+				mode = "lossy"
+			default:
+				mode = "malformed"
+			}
+			s, feats := genSchema(r, mode != "clean")
+			if mode == "malformed" {
+				feats["malformed_"+malform(r, s)]++
+			}
+			sdl := s.SDL(&sd.SDLOpts{R: r, SchemaBlock: true})
+			out.Line(observe(mode, s, sdl, feats, every > 0 && i%every == 0, r))
+		}
+	case "corpus":
+		f, err := os.Open(a["in"])
+		if err != nil {
+			return
+		}
+		defer f.Close()
+		sc := bufio.NewScanner(f)
+		sc.Buffer(make([]byte, 1<<20), 1<<24)
+		var cur strings.Builder
+		r := common.NewRand(7)
+		flush := func() {
+			if strings.TrimSpace(cur.String()) != "" {
+				out.Line(observe("corpus", nil, cur.String(), nil, true, r))
+			}
+			cur.Reset()
+		}
+		for sc.Scan() {
+			line := sc.Text()
+			if strings.HasPrefix(line, "---") {
+				flush()
+				continue
+			}
+			if strings.HasPrefix(line, "#") {
+				continue
+			}
+			cur.WriteString(line + "\n")
+		}
+		flush()
+	}
 }
